@@ -32,6 +32,7 @@ RULE = ("stream cases = random selection under the subscription field (depth<=2:
         "spellings as mergeable duplicates, split selections, fragments, skipped siblings; plus a bounded-exhaustive block over all failure patterns of 3 events x 2 failing fields. "
         "distinct non-trivial = distinct canonical case with >=2 events or a refusal")
 ASSUMPTIONS = [
+    "a stream that never ends is reported only after CONFIRMATION: hang = no observable progress (pull, gate, result, resolver call) during N loop iterations of the private single-threaded loop (no wall-clock bound), or for thread-offloaded resolvers no progress for 15 s; the case is then re-run alone with 20x the iteration bound / 90 s without progress; a 300 s wall-clock bound only produces infrastructure notes",
     "the consumer follows the sequential AsyncMap protocol: it awaits one __anext__ at a time (overlapping processing of two events on the shared executor is outside the statement)",
     "the source stream is finite and its items are the events; field resolvers raise only ResolverError",
     "error lists are compared as multisets when field resolvers are asynchronous or thread-offloaded (their completion order is not part of the statement)",
@@ -41,7 +42,18 @@ TRUSTED = [
     "asyncio event loop semantics (modelled as a sequential pull protocol)",
 ]
 
-HARD_TIMEOUT = 10.0
+# Hang detection is PROGRESS based, never "total time > T" (the machine may be heavily loaded):
+#   * everything runs on one thread of a private loop: a hang = STALL_ITERS consecutive loop iterations in which nothing observable
+#     changed (no pull, no gate, no result, no resolver call, task state) -- independent of wall-clock time and CPU load;
+#   * with thread-offloaded resolvers progress depends on worker threads: a hang = no observable change for STALL_SECONDS;
+#   * a first-pass hang verdict is only a SUSPICION: the case is re-run alone with bounds x CONFIRM_SCALE (>= 60 s for the
+#     wall-clock part) and reported only if it stalls again (otherwise stat "slow-case-not-a-hang");
+#   * INFRA_SECONDS only keeps the check from blocking forever: exceeding it is an infrastructure note, not a failure.
+STALL_ITERS = 5000
+STALL_SECONDS = 15.0
+CONFIRM_SCALE = 20
+CONFIRM_MIN_SECONDS = 90.0
+INFRA_SECONDS = 300.0
 REFUSALS = ["multi-field", "no-sub-resolver", "unknown-field", "query-op", "mutation-op", "blocking-runtime", "threadpool-runtime",
             "multi-expanded", "zero-fields", "opsel-unknown", "opsel-ambiguous", "vars", "shorthand-op", "named-query-op"]
 EXPECTED_EXC = {
@@ -328,6 +340,7 @@ def request_extras(case):
 # ---------------------------------------------------------------------------------------------
 class SubCtx:
     def __init__(self):
+        self.progress = 0      # bumped by every field resolver call
         self.loop = None
         self.sub_calls = 0
         self.sub_args = None
@@ -385,10 +398,16 @@ def schemas(mode):
     from py_gql.schema import Argument, Field, Int, ListType, ObjectType, Schema
 
     def outcome(root, info):
+        tick(info)
         ps = "/".join(str(x) for x in info.path)
         if ps in root["fail"]:
             raise ResolverError("fail@%d %s" % (root["id"], ps))
         return ps
+
+    def tick(info):
+        c = info._context.context_value
+        if isinstance(c, SubCtx):
+            c.progress += 1
 
     def value(root, info, name):
         ps = outcome(root, info)
@@ -521,6 +540,10 @@ class Hang(Exception):
     pass
 
 
+class InfraBound(Exception):
+    """a bound that exists only so that the check cannot block forever"""
+
+
 def canon_response(resp, sort_errors):
     errs = [{"message": e.get("message"), "path": e.get("path")} for e in resp.get("errors", [])]
     if sort_errors:
@@ -528,8 +551,34 @@ def canon_response(resp, sort_errors):
     return {"data": resp.get("data"), "errors": errs}
 
 
-def run_real(case):
+def run_confirmed(case, ctx=None):
+    """run_real, with every hang verdict CONFIRMED by a second, isolated run with much larger (progress based) bounds"""
+    saturated = ctx is not None and ctx.extra.get("_confirmed_hangs", 0) >= 3
+    # once three hangs are confirmed a further suspicion is never reported: do not wait long to raise it (thread-offloaded cases)
+    real = run_real(case, scale=0 if saturated else 1)
+    if real["err"] and real["err"].startswith("hang"):
+        if saturated:
+            # three hangs are already confirmed and reported in this run: do not spend minutes confirming every further one,
+            # and do not report an unconfirmed suspicion either
+            ctx.stat("hang-suspicion-not-examined")
+            real["err"] = "infra:hang suspicion not examined (3 confirmed hangs already reported)"
+            return real
+        again = run_real(case, scale=CONFIRM_SCALE)
+        if again["err"] and again["err"].startswith("hang") and ctx is not None:
+            ctx.extra["_confirmed_hangs"] = ctx.extra.get("_confirmed_hangs", 0) + 1
+        if again["err"] and again["err"].startswith("hang"):
+            return again
+        if ctx is not None:
+            ctx.stat("slow-case-not-a-hang")
+        real = again
+    if real["err"] and real["err"].startswith("infra") and ctx is not None and "not examined" not in real["err"]:
+        ctx.notes.append("case skipped, infrastructure bound exceeded: %s" % real["err"])
+    return real
+
+
+def run_real(case, scale=1):
     """-> dict(refused=exc class name or None, results=[response dict], pulls, sub_calls, ended, err)"""
+    import time as _time
     from py_gql.execution import subscribe
     from py_gql.execution.runtime import AsyncIORuntime, BlockingRuntime, ThreadPoolRuntime
     from py_gql.lang import parse
@@ -556,26 +605,29 @@ def run_real(case):
         else:
             rt = AsyncIORuntime(loop=loop, execute_blocking_functions_in_thread=bool(case["threads"]))
 
-        async def main():
+        results = []
+        stage = ["subscribing"]
+        stall_iters = STALL_ITERS * max(scale, 1)
+        # confirmation: >= 60 s without ANY observable progress; scale 0: the verdict will not be used (see run_confirmed)
+        stall_seconds = {0: 1.0, 1: STALL_SECONDS}.get(scale, CONFIRM_MIN_SECONDS)
+
+        async def body():
             try:
                 aw = subscribe(sub_schema, doc, context_value=ctx, runtime=rt, operation_name=opname, variables=variables)
-                stream = await asyncio.wait_for(aw, HARD_TIMEOUT) if asyncio.iscoroutine(aw) or asyncio.isfuture(aw) else aw
+                stream = (await aw) if asyncio.iscoroutine(aw) or asyncio.isfuture(aw) else aw
             except Exception as e:  # noqa  (classified by the caller)
                 out["refused"] = type(e).__name__
                 return
             if case["kind"] == "refusal":
                 out["refused"] = None      # accepted although it should have been refused
                 return
-            results = []
-
+            stage[0] = "consuming"
             drive = case.get("drive") or "async-for"
             out["closed_after"] = None
-
-            async def consume():
-                if drive == "async-for":
-                    async for res in stream:
-                        results.append(res)
-                    return
+            if drive == "async-for":
+                async for res in stream:
+                    results.append(res)
+            else:
                 # the documented result is an async ITERATOR: bare `__anext__()` pulls, no `__aiter__()` first
                 it = stream
                 n = 0
@@ -585,41 +637,58 @@ def run_real(case):
                     if drive == "aclose-mid" and n == max(1, len(case["events"]) // 2) and hasattr(it, "aclose"):
                         await it.aclose()
                         out["closed_after"] = n
-                        return
+                        break
                     try:
                         res = await it.__anext__()
                     except StopAsyncIteration:
-                        return
+                        break
                     results.append(res)
                     n += 1
-            task = asyncio.ensure_future(consume())
+            out["ended"] = True
+
+        async def main():
+            task = asyncio.ensure_future(body())
             delays = list(case["delays"])
             opened = 0
-            spins = 0
+            t0 = last_change = _time.monotonic()
+            last = None
+            idle = 0
             while not task.done():
-                spins += 1
-                if spins > 50000:
-                    task.cancel()
-                    raise Hang("stream consumer does not finish")
-                await asyncio.sleep(0)
+                if case["threads"] and len(src.gates) <= opened:
+                    await asyncio.sleep(0.0005)        # worker threads need real time
+                else:
+                    await asyncio.sleep(0)
                 if len(src.gates) > opened:
                     d = delays[opened] if opened < len(delays) else 0
                     for _ in range(d):
                         await asyncio.sleep(0)
                     src.gates[opened].set_result(None)
                     opened += 1
-                elif case["threads"]:
-                    await asyncio.sleep(0.0005)
+                snap = (src.pulls, len(src.gates), opened, len(results), ctx.sub_calls, stage[0], ctx.progress)
+                now = _time.monotonic()
+                if snap != last:
+                    last, idle, last_change = snap, 0, now
+                else:
+                    idle += 1
+                if case["threads"]:
+                    if now - last_change > stall_seconds:
+                        task.cancel()
+                        raise Hang("no progress for %.0f s while %s (thread-offloaded resolvers)" % (stall_seconds, stage[0]))
+                elif idle > stall_iters:
+                    task.cancel()
+                    raise Hang("no progress during %d loop iterations while %s" % (stall_iters, stage[0]))
+                if now - t0 > INFRA_SECONDS:
+                    task.cancel()
+                    raise InfraBound("%.0f s" % INFRA_SECONDS)
             task.result()
-            out["ended"] = True
             # responses are rendered AFTER the stream ended: a result sharing state with a later event shows here
             out["results"] = [x.response() for x in results]
         try:
-            loop.run_until_complete(asyncio.wait_for(main(), HARD_TIMEOUT))
+            loop.run_until_complete(main())
         except Hang as e:
             out["err"] = "hang:%s" % e
-        except asyncio.TimeoutError:
-            out["err"] = "hang:timeout"
+        except InfraBound as e:
+            out["err"] = "infra:%s" % e
         except Exception as e:  # noqa
             out["err"] = "internal:%s" % type(e).__name__
     finally:
@@ -656,6 +725,8 @@ def expected_results(case):
 # ---------------------------------------------------------------------------------------------
 def oracle(case, real):
     bad = []
+    if real["err"] and real["err"].startswith("infra"):
+        return []           # a bound that only keeps the check from blocking forever: an infrastructure note, never a verdict
     if real["err"]:
         k = real["err"].split(":")[0]
         drv = case.get("drive") or "async-for"
@@ -874,7 +945,7 @@ def shrink(case, failing, budget=40):
 def check_cases(ctx, cases):
     reals = []
     for case in cases:
-        real = run_real(case)
+        real = run_confirmed(case, ctx)
         reals.append(real)
         ctx.count()
         ctx.stat("kind=" + (case["refusal"] or "stream"))
@@ -893,13 +964,13 @@ def check_cases(ctx, cases):
             ctx.nontrivial(json.dumps(case, sort_keys=True))
         for sig, what in oracle(case, real):
             def failing(c, want=sig.split(":")[0]):
-                for s, _w in oracle(c, run_real(c)):
+                for s, _w in oracle(c, run_confirmed(c)):
                     if s.split(":")[0] == want:
                         return s
                 return None
             seen = ctx.extra.setdefault("_shrunk", {})
             cls = sig.split(":")[0]
-            if seen.get(cls, 0) >= 2:      # shrink the first cases of a failure class only (time)
+            if cls == "hang" or seen.get(cls, 0) >= 2:      # shrink the first cases of a failure class only (time)
                 ctx.fail(seen.get(sig, sig), what, {"case": case})
                 continue
             seen[cls] = seen.get(cls, 0) + 1
@@ -1024,10 +1095,11 @@ def run(ctx):
 
 def _cleanup(ctx):
     ctx.extra.pop("_shrunk", None)
+    ctx.extra.pop("_confirmed_hangs", None)
 
 
 def replay(ctx, data):
     case = data.get("input", {}).get("case")
     if case is None:
         return True
-    return not oracle(case, run_real(case))
+    return not oracle(case, run_confirmed(case))
